@@ -8,6 +8,7 @@ NS = "Mpgs.Dispatch."
 THEOREMS = [
     (NS + "C20_one_binding_per_class", "full"),
     (NS + "C20_dispatch_exact", "full"),
+    (NS + "C20_handler_outcome_unchanged", "full"),
     (NS + "C20_duplicate_refused", "full"),
     (NS + "C20_duplicate_refused_resource", "full"),
     (NS + "C20_unregister_unbinds", "full"),
@@ -19,13 +20,18 @@ THEOREMS = [
 ASSUMPTIONS = [
     "dir(resource) lists attributes in sorted name order (CPython); handlers are identified by (resource, method name)",
     "class annotations and string annotations are both normalised to the class name, as register_function does",
-    "handlers themselves do not re-enter the dispatcher",
+    "handlers themselves do not re-enter the dispatcher; a handler may return or raise any exception (KeyError and DispatchError of its "
+    "own included): the very exception object must reach the caller of dispatch()",
 ]
-RULE = ("random op sequences (register/unregister/regfn/unregfn/dispatch/keys) over 1-4 generated resources with "
+RULE = ("random op sequences (register/unregister/regfn/unregfn/dispatch/keys, a third of the dispatches to handlers that raise one of ten "
+        "exception classes) over 1-4 generated resources with "
         "0-4 decorated methods, class or string annotations, overlapping event classes, on the server and the client "
         "dispatcher; non-trivial = at least one error outcome and one successful dispatch in the case")
 
 EVENTS = ["EvA", "EvB", "EvC", "EvD", "EvE"]
+# what a handler may raise: the exception (the very object) must reach the caller of dispatch()
+EXCS = ["KeyError", "LookupError", "IndexError", "AttributeError", "TypeError", "ValueError", "RuntimeError", "StopIteration",
+        "Exception", "DispatchError"]
 
 
 def gen_case(rng, cid):
@@ -60,7 +66,10 @@ def gen_case(rng, cid):
             lines.append("unregfn %s" % rng.choice(EVENTS))
         elif r < 0.9:
             args = ",".join(str(rng.randint(0, 99)) for _ in range(2))
-            lines.append("dispatch %s %s" % (rng.choice(EVENTS), args))
+            if rng.random() < 0.35:
+                lines.append("dispatch %s %s %s" % (rng.choice(EVENTS), args, rng.choice(EXCS)))
+            else:
+                lines.append("dispatch %s %s" % (rng.choice(EVENTS), args))
         else:
             lines.append("keys")
     lines.append("keys")
@@ -76,18 +85,32 @@ class Impl:
         import mpgameserver.dispatch as D
         self.D = D
         self.classes = {ev: type(ev, (), {}) for ev in EVENTS}
+        self.raise_next = None      # the exception object the next invoked handler raises (after logging the call)
+
+    def make_exc(self, name):
+        if name == "DispatchError":
+            return self.D.DispatchError("raised by the handler itself")
+        import builtins
+        return getattr(builtins, name)("raised by the handler")
+
+    def _after_call(self):
+        if self.raise_next is not None:
+            raise self.raise_next
 
     def make_resource(self, rid, spec, styles, kind, log):
         D = self.D
         ns = {}
+        self_impl = self
         def mk_server(mname):
             def h(self, client, seqnum, msg):
                 log.append((rid, mname, (client, seqnum)))
+                self_impl._after_call()
             return h
 
         def mk_client(mname):
             def h(self, seqnum, msg):
                 log.append((rid, mname, (seqnum,)))
+                self_impl._after_call()
             return h
 
         for (mname, ev), st in zip(spec, styles):
@@ -128,9 +151,9 @@ class Impl:
                 elif op == "regfn":
                     rid, m = int(w[2]), w[3]
                     if kind == "server":
-                        fn = lambda client, seqnum, msg, _r=rid, _m=m: log.append((_r, _m, (client, seqnum)))
+                        fn = lambda client, seqnum, msg, _r=rid, _m=m: (log.append((_r, _m, (client, seqnum))), self._after_call())
                     else:
-                        fn = lambda seqnum, msg, _r=rid, _m=m: log.append((_r, _m, (seqnum,)))
+                        fn = lambda seqnum, msg, _r=rid, _m=m: (log.append((_r, _m, (seqnum,))), self._after_call())
                     # alternate class / string form of the key
                     key = self.classes[w[1]] if (len(out) % 2 == 0) else w[1]
                     disp.register_function(key, fn)
@@ -143,10 +166,24 @@ class Impl:
                     a = [int(x) for x in w[2].split(",")]
                     msg = self.classes[w[1]]()
                     del log[:]
-                    if kind == "server":
-                        disp.dispatch(a[0], a[1], msg)
-                    else:
-                        disp.dispatch((a[0], a[1]), msg)
+                    self.raise_next = self.make_exc(w[3]) if len(w) > 3 and w[3] != "-" else None
+                    try:
+                        if kind == "server":
+                            disp.dispatch(a[0], a[1], msg)
+                        else:
+                            disp.dispatch((a[0], a[1]), msg)
+                        if self.raise_next is not None and log:
+                            out.append("called-but-exception-swallowed")
+                            continue
+                    except BaseException as e:
+                        if e is not self.raise_next:
+                            raise
+                        rid, m, args = log[0]
+                        flat = args if kind == "server" else args[0]
+                        out.append("called %d %s %s raised:%s" % (rid, m, ",".join(str(x) for x in flat), w[3]))
+                        continue
+                    finally:
+                        self.raise_next = None
                     if len(log) != 1:
                         out.append("calls=%d" % len(log))
                     else:
@@ -260,7 +297,7 @@ def monitor(impl, case, ctx):
             # same key-form alternation as Impl.run_case is irrelevant for the monitor: use the name
             ev = w[1]
             try:
-                disp.register_function(ev, (lambda *a, _r=int(w[2]), _m=w[3]: log.append((_r, _m, a[:-1]))))
+                disp.register_function(ev, (lambda *a, _r=int(w[2]), _m=w[3]: (log.append((_r, _m, a[:-1])), impl._after_call())))
                 if ev in bound:
                     ctx.failure("duplicate-accepted", "register_function for a bound class was not refused",
                                 {"case": case, "at": idx})
@@ -281,21 +318,46 @@ def monitor(impl, case, ctx):
             a = [int(x) for x in w[2].split(",")]
             ev = w[1]
             del log[:]
+            exc = impl.make_exc(w[3]) if len(w) > 3 and w[3] != "-" else None
+            impl.raise_next = exc
             try:
-                if kind == "server":
-                    disp.dispatch(a[0], a[1], impl.classes[ev]())
-                else:
-                    disp.dispatch((a[0], a[1]), impl.classes[ev]())
+                try:
+                    if kind == "server":
+                        disp.dispatch(a[0], a[1], impl.classes[ev]())
+                    else:
+                        disp.dispatch((a[0], a[1]), impl.classes[ev]())
+                finally:
+                    impl.raise_next = None
+                if exc is not None and log:
+                    ctx.failure("handler-exception-swallowed", "the handler of %s raised %s but dispatch() returned normally" % (ev, w[3]),
+                                {"case": case, "at": idx})
+                    return
                 exp = bound.get(ev)
                 got = [(r, m) for r, m, _ in log]
                 if exp is None or got != [exp]:
                     ctx.failure("wrong-handler", "dispatch(%s) ran %r, expected exactly %r" % (ev, got, exp),
                                 {"case": case, "at": idx})
                     return
-            except D.DispatchError:
-                if ev in bound or log:
-                    ctx.failure("dispatcherror-for-bound-class", "DispatchError although %s is bound" % ev,
-                                {"case": case, "at": idx})
+            except BaseException as e:
+                if e is exc:
+                    got = [(r, m) for r, m, _ in log]
+                    if got != [bound.get(ev)]:
+                        ctx.failure("wrong-handler", "dispatch(%s) ran %r, expected exactly %r" % (ev, got, bound.get(ev)),
+                                    {"case": case, "at": idx})
+                        return
+                elif isinstance(e, D.DispatchError):
+                    if log:
+                        ctx.failure("handler-exception-replaced", "the handler bound to %s ran and raised %s, but the caller of dispatch() got "
+                                    "DispatchError(%s) - 'no handler registered' - instead of the handler's exception" % (ev, w[3] if len(w) > 3 else "nothing", e),
+                                    {"case": case, "at": idx})
+                        return
+                    if ev in bound:
+                        ctx.failure("dispatcherror-for-bound-class", "DispatchError although %s is bound" % ev,
+                                    {"case": case, "at": idx})
+                        return
+                else:
+                    ctx.failure("handler-exception-replaced", "dispatch(%s) raised %s: %s, which is neither DispatchError nor what the handler raised" %
+                                (ev, type(e).__name__, e), {"case": case, "at": idx})
                     return
 
 
